@@ -934,6 +934,26 @@ class File:
                 hits.append((j + 1, _skip_group(t, j, self.path) - 1))
         return self._one(hits, "`impl %s {`" % (("%s for %s" % (trait, tyname)) if trait else tyname))
 
+    def impl_range_generic(self, tyname, trait):
+        """like impl_range for a generic header: `impl<..> <trait><..> for <tyname><..> [where ..] {`; exactly one"""
+        t = self.toks
+        hits = []
+        for i in self._top_level():
+            if t[i].text != "impl":
+                continue
+            j = i + 1
+            if t[j].text == "<":
+                p = Parser(t, self.path, j)
+                p.generic_args_skip()
+                j = p.i
+            hdr = []
+            while j < len(t) and t[j].text != "{":
+                hdr.append(t[j].text)
+                j += 1
+            if hdr and hdr[0] == trait and any(hdr[k] == "for" and k + 1 < len(hdr) and hdr[k + 1] == tyname for k in range(len(hdr))):
+                hits.append((j + 1, _skip_group(t, j, self.path) - 1))
+        return self._one(hits, "`impl %s<..> for %s<..> {`" % (trait, tyname))
+
     def fn(self, name, within=None):
         """(params, return type text | None, body AST, line); params = [(name | 'self', type text)]
         `within` = token range (from impl_range) or None for a free function at the top level of the file"""
